@@ -13,6 +13,8 @@ from __future__ import annotations
 import functools
 import itertools
 
+import math
+
 import numpy as np
 
 from ..lattice import Rel, with_ids
@@ -46,6 +48,13 @@ FALLOFF = (3.7, 110.0)  # position / momentum falloff: irrelevant for compact co
 
 # ------------------------------------------------------------------------------ helpers
 def _grid(M, N):
+    """A fresh grid per call. Both grid classes are used (the polynomial calculus sees only the compact collocation points, which
+    are the same for both): the one-scale Grid for even M, the three-scale Grid3Scales (what WallGoManager builds) for odd M. A
+    worker handles many sizes one after the other, so state shared between grid INSTANCES would surface as wrong nodes."""
+    if M % 2:
+        from WallGo.grid3Scales import Grid3Scales
+
+        return Grid3Scales(M, N, 3.0 * FALLOFF[0], 3.0 * FALLOFF[0], FALLOFF[0], FALLOFF[1])
     from WallGo.grid import Grid
 
     return Grid(M, N, FALLOFF[0], FALLOFF[1])
@@ -58,8 +67,24 @@ def _poly(coeff, grid, basis, direction, endpoints):
 
 
 def _axis(grid, M, N, d, ep) -> O.Axis:
-    x = np.asarray(grid.getCompactCoordinates(True, d), dtype=float)
-    return O.axis(O.K_of(M, N, d), d, bool(ep), tuple(float(v) for v in x))
+    # the oracle's nodes are its own (Gauss-Chebyshev-Lobatto points -cos(k pi/K), k = 0..K, as documented in Grid.__init__), not the
+    # arrays the grid under test hands out; that the grid's arrays ARE these points is a relation of every 1-D case (see _nodes_rel)
+    K = O.K_of(M, N, d)
+    x = np.array([-math.cos(math.pi * k / K) for k in range(K + 1)])
+    x[0], x[-1] = -1.0, 1.0
+    return O.axis(K, d, bool(ep), tuple(float(v) for v in x))
+
+
+def _nodes_rel(r: Rel, grid, M, N, d) -> None:
+    """The collocation points the polynomial calculus reads from the grid are the documented ones (any grid class, any instance)."""
+    K = O.K_of(M, N, d)
+    want = np.array([-math.cos(math.pi * k / K) for k in range(K + 1)])
+    try:
+        got = np.asarray(grid.getCompactCoordinates(True, d), dtype=float)
+        ok = got.shape == want.shape and bool(np.all(np.abs(got - want) <= 4 * EPS))
+        r.true(f"grid-nodes-with-endpoints-{d}", ok, got_shape=list(got.shape), want_shape=list(want.shape), grid=type(grid).__name__)
+    except Exception as e:  # noqa: BLE001
+        r.true(f"grid-nodes-with-endpoints-{d}", False, error=repr(e)[:200])
 
 
 def _close_arr(r: Rel, name: str, got, want, tol, **extra) -> bool:
@@ -178,6 +203,7 @@ def case_changebasis(p: dict) -> dict:
     grid = _grid(M, N)
     _guard_nodes(r, grid, M, N, d)
     ax = _axis(grid, M, N, d, ep)
+    _nodes_rel(r, grid, M, N, d)
     n, K = ax.n, ax.K
     C2T, T2C = ax.c2t(), ax.t2c()
     cond = float(np.linalg.cond(T2C))
@@ -235,6 +261,7 @@ def case_evaluate(p: dict) -> dict:
     grid = _grid(M, N)
     _guard_nodes(r, grid, M, N, d)
     ax = _axis(grid, M, N, d, ep)
+    _nodes_rel(r, grid, M, N, d)
     n, K = ax.n, ax.K
     off = np.array(O.OFFGRID)
     gridpts = np.array(ax.xfull)
@@ -286,6 +313,7 @@ def case_derivative(p: dict) -> dict:
     grid = _grid(M, N)
     _guard_nodes(r, grid, M, N, d)
     ax = _axis(grid, M, N, d, ep)
+    _nodes_rel(r, grid, M, N, d)
     axfull = _axis(grid, M, N, d, True)
     n, K = ax.n, ax.K
     interior_rows = list(range(1, K))
@@ -349,6 +377,7 @@ def case_integrate(p: dict) -> dict:
     grid = _grid(M, N)
     _guard_nodes(r, grid, M, N, d)
     ax = _axis(grid, M, N, d, ep)
+    _nodes_rel(r, grid, M, N, d)
     n, K = ax.n, ax.K
     D = O.exactness_degree(K)
     r.true("gcl-exactness-degree-computed-is-2K-1", D == 2 * K - 1, D=D, K=K)
@@ -446,6 +475,7 @@ def case_matrices(p: dict) -> dict:
     grid = _grid(M, N)
     _guard_nodes(r, grid, M, N, d)
     ax = _axis(grid, M, N, d, ep)
+    _nodes_rel(r, grid, M, N, d)
     n, K = ax.n, ax.K
     # the methods ignore the instance's own labels (WallGo calls them on a temperature profile): use two hosts
     hosts = {
@@ -492,6 +522,7 @@ def case_linear(p: dict) -> dict:
     r = Rel(p["id"])
     grid = _grid(M, N)
     ax = _axis(grid, M, N, d, ep)
+    _nodes_rel(r, grid, M, N, d)
     n, K = ax.n, ax.K
     al, be = 1.75, -0.625
     pts = np.array(O.OFFGRID + (-1.0, 1.0))
@@ -522,6 +553,14 @@ def case_linear(p: dict) -> dict:
                 r.true(f"lin-{basis}-{name}-no-exception", False, error=repr(e))
                 return
             _close_arr(r, f"lin-{basis}-{name}", lhs, rhs, 64 * EPS * (K + 1) ** 2 * absF + 1e-30)
+            # homogeneity over many orders of magnitude: F(c u) == c F(u) for coefficients that are numerically tiny or huge
+            # (a power of two: the scaling itself is exact, so any difference is an absolute constant inside F)
+            for c in (2.0**-60, 2.0**60):
+                try:
+                    big = np.asarray(F(mk(c * u)), dtype=float)
+                    r.true(f"lin-{basis}-{name}-homogeneous(c={c:.3g})", np.array_equal(big, c * np.asarray(F(mk(u)), dtype=float)))
+                except Exception as e:
+                    r.true(f"lin-{basis}-{name}-homogeneous-no-exception", False, error=repr(e))
             if ok:
                 zz = np.asarray(F(mk(np.zeros(n))), dtype=float)
                 r.true(f"lin-{basis}-{name}-zero-maps-to-zero", np.all(zz == 0))
